@@ -263,6 +263,34 @@ M("C19", "write-input-narrow-handler", "iodata/api.py", r"            input_modu
 M("C20", "volume-xy-block", "iodata/utils.py", r"return np\.linalg\.norm\(np\.cross\(cellvecs\[0\], cellvecs\[1\]\)\)", "return abs(np.linalg.det(cellvecs[:, :2]))", "C20-R3")
 
 
+# ----------------------------------------------------------------------------- additions (third round)
+M("C02", "fchk-nelec-truncated", F + "fchk.py", r"int\(np\.round\(data\.nelec\)\)", "int(data.nelec)", "C02-R13")
+M("C02", "fcidump-float-into-d", F + "fcidump.py", r"nelec = int\(round\(data\.nelec or 0\)\)", "nelec = data.nelec or 0", "C02-R13")
+M("C02", "mol2-bond-fields-touch", F + "mol2.py", r"\{i\+1:6d\} \{bond\[0\]\+1:4d\} \{bond\[1\]\+1:4d\}", "{i+1:6d}{bond[0]+1:5d}{bond[1]+1:5d}", "C02-R14")
+M("C02", "json-writer-converts-masses", F + "json_qcschema.py", r'molecule_dict\["masses"\] = data\.atmasses\.tolist\(\)', 'molecule_dict["masses"] = (data.atmasses / amu).tolist()', "C02-R12", also=[(r"from \.\.utils import ", "from ..utils import amu, ")])
+M("C03", "molden-tags-applied-inside-section-loop", F + "molden.py", r"            data_alpha, data_beta = _load_helper_coeffs\(lit\)\n", "            for shell in obasis.shells:\n                if shell.angmoms[0] in pure_angmoms:\n                    shell.kinds[0] = \"p\"\n            data_alpha, data_beta = _load_helper_coeffs(lit)\n", "C03-R10")
+M("C05", "norm-on-sqrt-scale", F + "molden.py", r"norm = np\.dot\(vec, np\.dot\(olp, vec\)\)", "norm = np.sqrt(np.dot(vec, np.dot(olp, vec)))", "C05-R8")
+M("C05", "cascade-swallows-final-error", F + "molden.py", r"                result\[\"mo\"\]\.coeffsb\[:\] = coeffsb_psi4\n            return\n", "                result[\"mo\"].coeffsb[:] = coeffsb_psi4\n        return\n", "C05-R9")
+M("C05", "turbomole-first-primitive-only", F + "molden.py", r"        for iprim in range\(shell\.nexp\):\n", "        for iprim in range(1):\n", "C05-R10")
+M("C06", "parity-shortcut", "iodata/overlap.py", r"            rij = r0 - r1\n", "            if (shell0.angmoms[0] + shell1.angmoms[0]) % 2 == 1 and np.allclose(r0, r1):\n                begin1 = end1\n                continue\n            rij = r0 - r1\n", "C06-R7")
+M("C07", "funnel-handler-returns", "iodata/api.py", r"        except StopIteration:\n            return\n", "        except RuntimeError as exc:\n            if isinstance(exc.__cause__, StopIteration):\n                return\n            raise LoadError(\"Uncaught exception while loading file.\", lit) from exc\n", "C07-R1")
+M("C07", "decorator-changes-warning-filters", "iodata/api.py", r"            with warnings\.catch_warnings\(record=True\) as warning_list:\n", "            with warnings.catch_warnings(record=True) as warning_list:\n                warnings.simplefilter(\"ignore\")\n", "C07-R1")
+M("C10", "wfn-order-cached-per-angmom", F + "wfn.py", r"        batch_primitive_names = \[\n            PRIMITIVE_NAMES\[type_assignments\[ibasis \+ ifn \* ncon\]\] for ifn in range\(ncart\)\n        \]\n", "        batch_primitive_names = _orders.get(angmom)\n        if batch_primitive_names is None:\n            batch_primitive_names = [\n                PRIMITIVE_NAMES[type_assignments[ibasis + ifn * ncon]] for ifn in range(ncart)\n            ]\n            _orders[angmom] = batch_primitive_names\n", "C10-R7", also=[(r"    permutation = np\.zeros\(nbasis, dtype=int\)\n", "    permutation = np.zeros(nbasis, dtype=int)\n    _orders = {}\n")])
+M("C12", "beta-slice-from-end", "iodata/orbitals.py", r"        return self\.occs\[self\.norba :\]", "        return self.occs[-self.norbb :]", "C12-R3")
+M("C13", "fchk-lazy-zip", F + "fchk.py", r"        trajectory = list\(\n            zip\(", "        trajectory = (\n            zip(", "C13-R9")
+M("C13", "pdb-ter-ends-frame", F + "pdb.py", r"        if line\.startswith\(\"END\"\) and molecule_found:\n            end_reached = True\n", "        if line.startswith((\"END\", \"TER\")) and molecule_found:\n            end_reached = True\n", "C13-R10")
+M("C14", "segmented-hardcodes-l2", "iodata/convert.py", r"    return attrs\.evolve\(obasis, shells=shells\)", "    return MolecularBasis(shells, obasis.conventions, \"L2\")", "C14-R1")
+M("C14", "unrestricted-energies-guarded-by-coeffs", "iodata/convert.py", r"None if mo\.energies is None else np\.concatenate\(\[mo\.energies, mo\.energies\]\)", "None if mo.coeffs is None else np.concatenate([mo.energies, mo.energies])", "C14-R3")
+M("C16", "passthrough-in-set-order", F + "json_qcschema.py", r"    for key in parsed_keys:\n        del result\[key\]\n", "    result = {key: result[key] for key in set(result).difference(keys)}\n", "C16-R4")
+M("C16", "validators-disabled", F + "wfn.py", r"    permutation = np\.zeros\(nbasis, dtype=int\)\n", "    permutation = np.zeros(nbasis, dtype=int)\n    attrs.validators.set_disabled(True)\n", "C16-R5", also=[(r"^import numpy as np\n", "import attrs\nimport numpy as np\n")], flags=re.M)
+M("C17", "selection-matches-anywhere", "iodata/api.py", r"any\(fnmatch\(basename, pattern\) for pattern in format_module\.PATTERNS\)", "any(fnmatch(basename, \"*\" + pattern) for pattern in format_module.PATTERNS)", "C17-R1")
+M("C18", "library-absorbs-arithmetic-error", F + "molden.py", r"        fixed_shell\.coeffs\[:\] /= np\.sqrt\(olpdiag\)\n", "        try:\n            fixed_shell.coeffs[:] /= np.sqrt(olpdiag)\n        except ArithmeticError:\n            pass\n", "C18-R6")
+M("C18", "passthrough-in-set-order", F + "json_qcschema.py", r"    for key in parsed_keys:\n        del result\[key\]\n", "    result = {key: result[key] for key in set(result).difference(keys)}\n", "C18-R7")
+M("C19", "orca-atom-line-dropped", "iodata/inputs/orca.py", r"    if template is None:\n        template = default_template\n    if atom_line is None:\n        atom_line = default_atom_line\n", "    if template is None:\n        template, atom_line = default_template, default_atom_line\n    elif atom_line is None:\n        atom_line = default_atom_line\n", "C19-R4")
+M("C20", "eigh-overwrites-overlap", "iodata/utils.py", r"eigh\(sds, overlap\)", "eigh(sds, overlap, overwrite_b=True)", "C20-R5")
+T("C20", "eigh-transposed-metric", "iodata/utils.py", r"eigh\(sds, overlap\)", "eigh(sds, overlap.T)")
+
+
 def _run_one(args):
     spec, repo = args
     from .cli import run_property
